@@ -740,7 +740,11 @@ protected:
         return what->resolve_resume();
     }
 
+#ifdef COCLS_VERIF
+    mutable cocls_verif::atomic<future<T> *>_owner;
+#else
     mutable std::atomic<future<T> *>_owner;
+#endif
 
     ///construct the associated future, suspend current coroutine and switch to other coroutine
     /**
